@@ -7,7 +7,7 @@ use std::rc::Rc;
 
 use rayon::prelude::*;
 use serde_json::json;
-use tau_engine::{AsValue, Object, Value};
+use tau_engine::{AsValue, Document, Object, Value};
 
 use crate::c01::{self, one_line};
 use crate::eng;
@@ -77,6 +77,48 @@ pub fn rec_obj(o: &MObj, depth: usize, log: &Log) -> RecObj {
         depth,
         log: log.clone(),
     }
+}
+
+/// A recording *Document*: logs the key strings exactly as the engine presents them to the
+/// user's document, then resolves them with the crate's own path resolver.
+pub struct RecDoc<'a> {
+    inner: &'a MObj,
+    asked: RefCell<Vec<String>>,
+}
+impl Document for RecDoc<'_> {
+    fn find(&self, key: &str) -> Option<Value<'_>> {
+        self.asked.borrow_mut().push(key.to_string());
+        Object::find(self.inner, key)
+    }
+}
+
+/// full field strings the rule writes at the top level of its identifiers (modifiers stripped),
+/// plus every token of the condition (cast / comparison fields are written there)
+pub fn written_top_keys(spec: &RuleSpec) -> BTreeSet<String> {
+    let mut out = BTreeSet::new();
+    let mut add = |m: &[Entry]| {
+        for e in m {
+            if let Some((_, field)) = refint::parse_key(&e.key) {
+                out.insert(field);
+            }
+        }
+    };
+    for (_, b) in &spec.idents {
+        match b {
+            Body::Map(m) => add(m),
+            Body::Seq(rows) => {
+                for m in rows {
+                    add(m)
+                }
+            }
+        }
+    }
+    for tok in spec.cond.split(|c: char| c.is_whitespace() || "()=<>,".contains(c)) {
+        if !tok.is_empty() {
+            out.insert(tok.to_string());
+        }
+    }
+    out
 }
 
 /// names the rule writes: (top-level first segments, every segment at any level)
@@ -185,6 +227,7 @@ fn check_spec(spec: &RuleSpec, level: u8, doc_cap: usize) -> Stats {
         Err(_) => return st,
     };
     let (top, all) = rule_names(spec);
+    let written = written_top_keys(spec);
     let docs = gen::docs_for(spec, level, doc_cap);
     let ex = c01::explore_rule(&rule, 64);
     st.transitions += ex.optimise_calls;
@@ -230,6 +273,28 @@ fn check_spec(spec: &RuleSpec, level: u8, doc_cap: usize) -> Stats {
                 }
             }
             drop(asked);
+            // the key strings as presented to a user-written Document
+            let rdoc = RecDoc { inner: d, asked: RefCell::new(vec![]) };
+            let vd = eng::solve3(&det.expr, &det.ids, &rdoc).unwrap_or(2);
+            st.transitions += 1;
+            st.evaluations += 1;
+            if vd != v {
+                st.push_violation(Violation {
+                    signature: "recording-document-changes-the-verdict".into(),
+                    witness: format!("{} through Object, {} through Document::find after optimise({}) ; rule {} doc {}", eng::v3name(v), eng::v3name(vd), eng::sw_name(sw), one_line(&yaml), d.show()),
+                    replay: json!({"kind":"optimise","rule_yaml":yaml,"sw_bits":sw,"hash_order_choices":[],"document":crate::report::mobj_to_json(d)}),
+                });
+            }
+            for key in rdoc.asked.borrow().iter() {
+                st.count("document_find_calls_recorded", 1);
+                if !written.contains(key) {
+                    st.push_violation(Violation {
+                        signature: "document-asked-for-a-key-string-the-rule-never-writes".into(),
+                        witness: format!("Document::find({:?}) after optimise({}) ; rule {} doc {}", key, eng::sw_name(sw), one_line(&yaml), d.show()),
+                        replay: json!({"kind":"optimise","rule_yaml":yaml,"sw_bits":sw,"hash_order_choices":[],"document":crate::report::mobj_to_json(d)}),
+                    });
+                }
+            }
             // unaddressed fields never change the verdict
             for d2 in unaddressed_variants(d, &top, &all) {
                 let v2 = eng::solve3(&det.expr, &det.ids, &d2).unwrap_or(2);
@@ -280,7 +345,7 @@ pub fn run(tier: Tier) -> i32 {
     }
     rep.stats.count("rule_specs", specs.len() as u64);
     rep.stats.sample(json!({"rule":"A: [{f: 'a*', g: x}, {f: '*b'}] (becomes a matrix)","recorded":["f","g"],"never":["\\u0000","\\u0001"]}));
-    rep.rule = "every loadable rule of the shared universe x every switch set (distinct optimised trees, all hash orders) x the document product, evaluated on a recording document (every get() on the document and on every nested object is logged). Oracle: (1) each key asked at the top level is the first segment of a key written at the top level of an identifier or a cast field of the condition; each key asked on a nested object is a segment written somewhere in the rule; no key containing a character below U+0020 (the matrix's synthetic column keys) or the empty key is ever asked; (2) for every document, adding an unaddressed field (zz, ff, the synthetic names U+0000 / U+0001, the empty name; at top level and inside nested objects) leaves the verdict unchanged. non-trivial = the rule asked for at least one key".into();
+    rep.rule = "every loadable rule of the shared universe x every switch set (distinct optimised trees, all hash orders) x the document product, evaluated on a recording document (every get() on the document and on every nested object is logged). Oracle: (1) each key asked at the top level is the first segment of a key written at the top level of an identifier or a cast field of the condition; each key asked on a nested object is a segment written somewhere in the rule; and every key string presented to a recording Document::find is, verbatim, a key written at the top level of an identifier or a field written in the condition; no key containing a character below U+0020 (the matrix's synthetic column keys) or the empty key is ever asked; (2) for every document, adding an unaddressed field (zz, ff, the synthetic names U+0000 / U+0001, the empty name; at top level and inside nested objects) leaves the verdict unchanged. non-trivial = the rule asked for at least one key".into();
     rep.assumptions = vec!["key attribution is by segment name, not by exact nesting path".into()];
     rep.finish()
 }
